@@ -5,7 +5,10 @@ context (vf/sched.py) with
   (1) EVERY fault vector in {ok, raise-before-touching, raise-after-updating}^k
       x EVERY assignment of the k items to w workers
   (2) EVERY single death: worker i exits (os._exit model, exit code 3) on the
-      j-th item it takes, for all (i, j) and all assignments
+      j-th item it takes, for all (i, j) and all assignments - including systems
+      with more queue entries than the work queue holds (the filler is still
+      blocked in put() when the worker dies) and a single worker (the last
+      running worker dies)
   (3) conformance: one real spawned run in which a worker calls os._exit(3) must
       end like its simulated replay (an exception, same type)
 Oracle (raise): parallel_add returns; HLL registers contain every non-failed
@@ -56,7 +59,10 @@ def exec_death(case):
     res = P.run_sim(items, case["w"], names, assign=case["assign"],
                     kwargs={"die": (case["die_worker"], case["die_at"], "sim"), "state": {}},
                     want_objects=False)
-    died = res["worker_exit"].get(case["die_worker"]) == 3
+    if case["die_worker"] == -1:
+        died = 3 in res["worker_exit"].values()
+    else:
+        died = res["worker_exit"].get(case["die_worker"]) == 3
     probs = []
     if not died:
         return probs, res, False  # that worker never took a j-th item: nothing died
@@ -158,13 +164,20 @@ def real_finish(p, spec, rep):
             if os.path.exists(f):
                 for l in open(f):
                     assign[int(l)] = w
+        taken = [a for a in assign if a is not None]
+        if not taken:
+            raise MachineryError("real death run: no worker recorded an item: " + out.decode()[-400:])
+        # items nobody recorded were never delivered (everybody was dead): in the replay they
+        # go to a worker that is gone, i.e. to whoever is left
         case = dict(kind="death", k=spec["k"], w=spec["w"], salt=spec["salt"], names=["hll"],
-                    assign=[a if a is not None else 0 for a in assign],
+                    assign=[a if a is not None else taken[0] for a in assign],
                     die_worker=spec["die_worker"], die_at=spec["die_at"])
         probs, res, died = exec_death(case)
         sim = ["returned"] if res["error"] is None else ["raised", res["error"][0]]
         rep.evals()
         rep.part("real-death", real=real, simulated=sim, recorded_assignment=assign)
+        if not died:
+            raise MachineryError("replay of the real death run: no simulated worker died")
         if real[0] == "returned":
             rep.violation(dict(case, real=True),
                           "REAL run: a worker called os._exit(3) and parallel_add returned a result")
@@ -188,12 +201,17 @@ def run(rep):
 
     quiet_shm()
     salt = rep.seed % 5
-    real = real_start(dict(k=4, w=2, salt=salt, die_worker=1, die_at=1))
+    # die_worker = -1: whichever worker takes an item first dies on it (a named worker might
+    # never receive an item in a real run - the other one can drain the queue first)
+    real = real_start(dict(k=4, w=2, salt=salt, die_worker=-1, die_at=1))
     try:
         if rep.tier == "quick":
             jobs = [("raise", 3, 2, salt), ("raise", 4, 2, salt), ("raise", 2, 3, salt),
                     ("death", 4, 2, salt), ("death", 3, 3, salt), ("raise", 3, 1, salt),
-                    ("death", 2, 1, salt)]
+                    ("death", 2, 1, salt),
+                    # more entries than the work queue holds (3 per worker): the filler is still
+                    # blocked in put() when the worker dies
+                    ("death", 5, 1, salt), ("death", 7, 2, salt)]
         else:
             jobs = [("raise", 4, 2, salt), ("raise", 4, 3, salt), ("raise", 5, 2, salt),
                     ("raise", 3, 1, salt), ("death", 4, 3, salt), ("death", 5, 2, salt),
